@@ -71,6 +71,32 @@ def run(ctx):
             if (inc != 1 or rec != 1) and bad is None:
                 bad = (n, s, 'counter increments=%d output records=%d' % (inc, rec))
         ca.instance('output decorator (%s): 1 increment + 1 record on %d intercepting exits' % (variant, nint), cl.qualname, bad is None)
+        # what is captured is what was *sent*: the call is recorded before the output function gets to run (it may consume, change or
+        # remove what it was given - and replay, which never runs it, captures the call at this very point)
+        late = None
+        nb = 0
+        for node_, t_, st_, st_in_ in d.at_calls:
+            if t_.role != 'body':
+                continue
+            e_, i_ = rm.initial_flags(d, st_in_)
+            if i_ is True or (variant == 'recording' and e_ is False) or not rm.interception_due(d, st_in_):
+                continue
+            ac_ = st_in_.env.get(('F', 'self', roles.active))
+            alive = ac_ is not None and d.is_none(ac_, st_in_) is False
+            if variant == 'recording' and not alive:
+                continue
+            nb += 1
+            if d.n(st_in_, 'enter:record_output') < 1:
+                late = late or (node_, st_in_)
+        if variant == 'recording':
+            ca.instance('output decorator (%s): the call is captured before the output function runs (%d body-call states)' % (variant, nb), cl.qualname,
+                        late is None)
+            if late:
+                node_, st_ = late
+                res.add(Finding('C03', 'C03.a', 'R-ORDER', cl.file, cl.qualname, node_.line, ast.unparse(node_.ast)[:100],
+                                'the intercepted output function runs before its call was captured: a function that drains, changes or removes what it was '
+                                'given makes the recorded entry differ from what was sent (and from what replay captures at call time)',
+                                witness=d.path_to(node_, st_) if (node_.id, st_.key()) in d.pred else None))
         if bad:
             n, s, msg = bad
             res.add(Finding('C03', 'C03.a', 'R-TYPESTATE', cl.file, cl.qualname, cl.node.lineno,
